@@ -225,3 +225,136 @@ theorem combined_eq (rg u : Gaps) (hrg : (keys rg).Nodup) (hnn : ∀ e ∈ rg, 0
   simp
 
 end CogentModel.GapMerge
+
+namespace CogentModel.GapMerge
+
+/-- hypotheses shared by the statements about one pairwise alignment inside the merge -/
+structure MergeHyp (rg u : Gaps) : Prop where
+  rgNodup : (keys rg).Nodup
+  rgNonneg : ∀ e ∈ rg, 0 ≤ e.2
+  uNodup : (keys u).Nodup
+  uPos : ∀ e ∈ u, 0 < e.2
+  dom : ∀ p, gl rg p ≤ gl u p
+
+theorem colOf_inj (rg u : Gaps) (H : MergeHyp rg u) (a b : Int) (h : colOf rg a = colOf rg b) : a = b := by
+  by_cases hab : a = b
+  · exact hab
+  · rcases Int.lt_or_gt_of_ne hab with h1 | h1
+    · have := colOf_strictMono rg H.rgNodup H.rgNonneg a b h1; omega
+    · have := colOf_strictMono rg H.rgNodup H.rgNonneg b a h1; omega
+
+theorem combined_mem (rg u : Gaps) (H : MergeHyp rg u) (c l : Int) :
+    (c, l) ∈ combinedRefseqGaps rg u ↔
+      ∃ p, c = colOf rg p ∧ ((p, l) ∈ (gapDifference rg u).2 ∨ (p, l) ∈ (gapDifference rg u).1) := by
+  rw [combined_eq rg u H.rgNodup H.rgNonneg H.uNodup]
+  simp only [List.mem_map, List.mem_append, Prod.mk.injEq]
+  constructor
+  · rintro ⟨e, he, h1, h2⟩
+    obtain ⟨p, v⟩ := e
+    simp only at h1 h2
+    subst h2
+    exact ⟨p, h1.symm, he⟩
+  · rintro ⟨p, rfl, he⟩
+    exact ⟨(p, l), he, rfl, rfl⟩
+
+theorem combined_keys (rg u : Gaps) (H : MergeHyp rg u) (c : Int) (hc : c ∈ keys (combinedRefseqGaps rg u)) :
+    ∃ p ∈ keys u, c = colOf rg p := by
+  obtain ⟨e, he, rfl⟩ := List.mem_map.mp hc
+  obtain ⟨p, hp, hor⟩ := (combined_mem rg u H e.1 e.2).mp he
+  refine ⟨p, ?_, hp⟩
+  have hsub := gapDifference_keys_sub rg u
+  rcases hor with h | h
+  · exact hsub.2 p (List.mem_map.mpr ⟨_, h, rfl⟩)
+  · exact hsub.1 p (List.mem_map.mpr ⟨_, h, rfl⟩)
+
+theorem combined_nodup (rg u : Gaps) (H : MergeHyp rg u) : (keys (combinedRefseqGaps rg u)).Nodup := by
+  rw [combined_eq rg u H.rgNodup H.rgNonneg H.uNodup]
+  have hk : keys (((gapDifference rg u).2 ++ (gapDifference rg u).1).map fun e => (colOf rg e.1, e.2)) =
+      (keys ((gapDifference rg u).2 ++ (gapDifference rg u).1)).map (colOf rg) := by
+    simp [keys, List.map_map, Function.comp_def]
+  rw [hk]
+  exact nodup_map_of_inj (colOf rg) _ (gapDifference_nodup rg u H.uNodup)
+    (fun a b hab h => hab (colOf_inj rg u H a b h))
+
+theorem combined_nonneg (rg u : Gaps) (H : MergeHyp rg u) : ∀ e ∈ combinedRefseqGaps rg u, 0 ≤ e.2 := by
+  intro e he
+  obtain ⟨p, _, hor⟩ := (combined_mem rg u H e.1 e.2).mp he
+  rcases hor with h | h
+  · obtain ⟨l, l', h1, h2, h3, h4⟩ := (gapDifference_overlap rg u p e.2).mp h
+    have hd := H.dom p
+    have hu := dget_mem_nodup u H.uNodup p l h1
+    simp only [gl, hu, h2, Option.getD_some] at hd
+    omega
+  · have := ((gapDifference_missing rg u p e.2).mp h).1
+    have := H.uPos _ this
+    simp only at this; omega
+
+/-- the entry at the column of reference residue `p` is the missing gap length (0 = no entry) -/
+theorem combined_gl_at (rg u : Gaps) (H : MergeHyp rg u) (p : Int) :
+    gl (combinedRefseqGaps rg u) (colOf rg p) = gl u p - gl rg p := by
+  have hnd := combined_nodup rg u H
+  have hzero : (∀ l, (p, l) ∉ (gapDifference rg u).2) → (∀ l, (p, l) ∉ (gapDifference rg u).1) →
+      gl (combinedRefseqGaps rg u) (colOf rg p) = 0 := by
+    intro h2 h1
+    have : dget (combinedRefseqGaps rg u) (colOf rg p) = none := by
+      rw [dget_none_iff]
+      intro hk
+      obtain ⟨e, he, hke⟩ := List.mem_map.mp hk
+      obtain ⟨p', hp', hor⟩ := (combined_mem rg u H e.1 e.2).mp he
+      have : p' = p := colOf_inj rg u H p' p (by rw [← hp', hke])
+      subst this
+      rcases hor with h | h
+      · exact h2 _ h
+      · exact h1 _ h
+    simp [gl, this]
+  cases hdu : dget u p with
+  | none =>
+    have hd := H.dom p
+    have hr := gl_nonneg rg H.rgNonneg p
+    simp only [gl, hdu, Option.getD_none] at hd ⊢
+    have hrg0 : (dget rg p).getD 0 = 0 := by unfold gl at hr; omega
+    rw [hrg0]
+    have hpk : p ∉ keys u := (dget_none_iff u p).mp hdu
+    have hsub := gapDifference_keys_sub rg u
+    have := hzero (fun l h => hpk (hsub.2 p (List.mem_map.mpr ⟨_, h, rfl⟩)))
+      (fun l h => hpk (hsub.1 p (List.mem_map.mpr ⟨_, h, rfl⟩)))
+    simpa [gl] using this
+  | some l =>
+    have hmu : (p, l) ∈ u := dget_some_mem u p l hdu
+    cases hdr : dget rg p with
+    | none =>
+      have hm : (p, l) ∈ (gapDifference rg u).1 := (gapDifference_missing rg u p l).mpr ⟨hmu, hdr⟩
+      have hin : (colOf rg p, l) ∈ combinedRefseqGaps rg u := (combined_mem rg u H _ _).mpr ⟨p, rfl, Or.inr hm⟩
+      have := dget_mem_nodup _ hnd _ _ hin
+      simp [gl, this, hdu, hdr]
+    | some l' =>
+      by_cases hne : l' = l
+      · subst hne
+        have := hzero
+          (fun v h => by
+            obtain ⟨l1, l2, h1, h2, h3, _⟩ := (gapDifference_overlap rg u p v).mp h
+            have e1 := dget_mem_nodup u H.uNodup p l1 h1
+            rw [hdu] at e1; rw [hdr] at h2
+            cases e1; cases h2; exact h3 rfl)
+          (fun v h => by
+            have := ((gapDifference_missing rg u p v).mp h).2
+            rw [hdr] at this; simp at this)
+        simp only [gl, hdu, hdr, Option.getD_some] at this ⊢
+        omega
+      · have hm : (p, l - l') ∈ (gapDifference rg u).2 :=
+          (gapDifference_overlap rg u p (l - l')).mpr ⟨l, l', hmu, hdr, hne, rfl⟩
+        have hin : (colOf rg p, l - l') ∈ combinedRefseqGaps rg u :=
+          (combined_mem rg u H _ _).mpr ⟨p, rfl, Or.inl hm⟩
+        have := dget_mem_nodup _ hnd _ _ hin
+        simp [gl, this, hdu, hdr]
+
+theorem combined_gl_off (rg u : Gaps) (H : MergeHyp rg u) (c : Int) (hc : ∀ p ∈ keys u, c ≠ colOf rg p) :
+    gl (combinedRefseqGaps rg u) c = 0 := by
+  have : dget (combinedRefseqGaps rg u) c = none := by
+    rw [dget_none_iff]
+    intro hk
+    obtain ⟨p, hp, hcp⟩ := combined_keys rg u H c hk
+    exact hc p hp hcp
+  simp [gl, this]
+
+end CogentModel.GapMerge
